@@ -86,8 +86,8 @@ PROPS = {
     'C08': dict(
         level='proof', verus_units=['core'],
         kani=True,
-        kani_select=dict(quick=r'^k_pair_|^k_api_seq_(empty_collect_vec|fil_collect_vec|map_fil_count|map_fil_reduce|map_fil_find|fil_first|map_any|fil_for_each|empty_count)',
-                         thorough=r'^k_pair_|^k_api_seq_'),
+        kani_select=dict(quick=r'^k_pair_|^k_lazy_|^k_order_|^k_api_seq_(empty_collect_vec|fil_collect_vec|map_fil_count|map_fil_reduce|map_fil_find|fil_first|map_any|fil_for_each|empty_count)',
+                         thorough=r'^k_pair_|^k_lazy_|^k_order_|^k_api_seq_'),
         trusted_base=[T1, T5, T7, AHW, A64, ARITH, STUBS, MODEL],
         assumptions=['workers of one run are the only threads executing closures during it and are joined before the run returns (T5)', TASK_BOUND + ' (only for the Max(1) clause: data bounded, parameters fully symbolic)'],
         explanation='Verus (unbounded): calc_num_threads(len, Max(n)) <= n; Runner::new gives 1 <= max_num_threads <= n; every run/run_map/reduce spawns between 1 and max_num_threads workers for every sequence of has_more() answers; is_sequential() <=> Max(1). Kani: with num_threads(1) and a fully symbolic chunk_size no terminal reaches the Runner (its three entry points are replaced by assert!(false)) and nothing is pulled through the concurrent interface.',
@@ -95,7 +95,7 @@ PROPS = {
     'C09': dict(
         level='model_checking', verus_units=['core'],
         kani=True,
-        kani_select=dict(quick=r'^k_api_seq_', thorough=r'^k_api_seq_'),
+        kani_select=dict(quick=r'^k_lazy_|^k_order_|^k_api_seq_', thorough=r'^k_lazy_|^k_order_|^k_api_seq_'),
         trusted_base=[T7, STUBS, MODEL],
         assumptions=[TASK_BOUND + '; chunk_size fully symbolic (Auto / Exact(c) / Min(c), any c)'],
         explanation='Verus (unbounded): is_sequential() <=> num_threads == Max(1). Kani (bounded in data, complete in parameters): for every terminal and iterator type with num_threads(1) the value equals the std chain and the SEQUENCE of (stage, position) closure calls is identical to the std chain (so reduce/fold are left-to-right); nothing reaches the Runner. ' + MC_TEXT,
